@@ -2,6 +2,7 @@ import ZbossModel.Crc
 import ZbossModel.Frame
 import ZbossModel.Frag
 import ZbossModel.Rx
+import ZbossModel.Link
 /-! Dispatch of line-protocol operations to the executable model. -/
 namespace Zboss.Ops
 open Zboss Zboss.Crc
@@ -98,6 +99,34 @@ def handleRx : List String → Option String
     pure ((if r.1.isEmpty then "." else ",".intercalate (r.1.map showFrame)) ++ " rem=" ++ toHex r.2)
   | _ => none
 
+def showLinkOut : Link.Out → String
+  | .wire b => "W" ++ toHex b
+  | .wrote i q => s!"w{i}:{q}"
+  | .deliver f => "D" ++ showFrame f
+  | .done i => s!"done{i}"
+  | .cancelled i => s!"canc{i}"
+
+def parseLinkEv (s : String) : Option Link.Ev :=
+  match s.splitOn ":" with
+  | ["S", i, fl, hdr, d] => do
+    let i ← i.toNat?; let fl ← fl.toNat?; let hdr ← parseHdr hdr; let d ← parseHex d
+    let p : HLPacket := ⟨hdr, d⟩
+    pure (.send i (Frame.mkData fl p (p.serialize.length + 5)))
+  | ["R", d] => do pure (.rx (← parseHex d))
+  | ["T"] => some .tick
+  | ["C", i] => do pure (.cancel (← i.toNat?))
+  | ["X"] => some .close
+  | ["N"] => some .reconnect
+  | _ => none
+
+def handleLink : List String → Option String
+  | "link" :: evs => do
+    let evs ← evs.mapM parseLinkEv
+    let r := Link.runEvents {} evs
+    let logs := r.2.map fun l => if l.isEmpty then "." else ",".intercalate (l.map showLinkOut)
+    pure (";".intercalate logs ++ s!" | seq={r.1.rx.packSeq} now={r.1.now} q={r.1.queue.length} h={r.1.holder.isSome}")
+  | _ => none
+
 def handle : List String → String
   | ["crc8", init, d] =>
     match parseHex init, parseHex d with
@@ -122,6 +151,9 @@ def handle : List String → String
     | none =>
       match handleRx toks with
       | some r => r
-      | none => "bad-op"
+      | none =>
+        match handleLink toks with
+        | some r => r
+        | none => "bad-op"
 
 end Zboss.Ops
